@@ -4,6 +4,8 @@
 pub mod bfs;
 pub mod comps;
 pub mod hist;
+pub mod kinds;
+pub mod store;
 pub mod report;
 pub mod util;
 
